@@ -86,9 +86,17 @@ ExplainedInv == phase = "built" /\ ~Identity(b) => Broken(b) # {} /\ \A p \in Br
 \* offsets are those of the concatenation, whatever the call sequence
 OffsetsInv == \A p \in 1..NChunks(b) :
                 b.chunks[p].off = (IF p = 1 THEN 0 ELSE b.chunks[p - 1].off + b.chunks[p - 1].len)
-\* witnesses of the listed deviations (run with KnownDeviations = {id}; TLC must report the violation)
-NoIdentityWitness == (phase = "built" /\ ~Identity(b)) => (PrintT(<<"WITNESS", ToJson(hist)>>) /\ FALSE)
-NoTableWitness    == (phase = "built" /\ ~TableTruthful(b)) => (PrintT(<<"WITNESS", ToJson(hist)>>) /\ FALSE)
+\* witnesses of the listed deviations: with the listed set switched on TLC must refute the property at a
+\* state that shows the deviation (regenerates the finding's counterexample; shortest first: BFS)
+Wit(cond) == (phase = "built" /\ cond) => (PrintT(<<"WITNESS", ToJson([inline |-> TRUE, ops |-> hist])>>) /\ FALSE)
+BrokenBy(f) == ~Identity(b) /\ \E p \in Broken(b) : WhyBroken(b, p) = f /\ b.chunks[p].len > 0 \/ f = "F01d"
+TableBy(field, v) == ~TableTruthful(b) /\ \E p \in 1..NChunks(b) : b.chunks[p][field] = v
+NoWitF01a == Wit(BrokenBy("F01a"))
+NoWitF01b == Wit(BrokenBy("F01b"))
+NoWitF01d == Wit(BrokenBy("F01d"))
+NoWitF01c == Wit(TableBy("dsz", "payload"))
+NoWitF01e == Wit(TableBy("dsz", "comp"))
+NoWitF01f == Wit(TableBy("dck", "comp"))
 
 Emit == phase # "open" => PrintT(<<"PROGRAM", ToJson([inline |-> TRUE, ops |-> hist])>>)
 =============================================================================
